@@ -135,6 +135,65 @@ STRENGTHENED3 = {
  "C06/extra-c": "C20 missed it (C06 caught it); port boundary values added to C20",
 }
 
+NEEDS4 = {
+ "C01/a": "ACK that empties the tx buffer stops the retransmit timer although the FIN is outstanding; with keep-alive on, the keep-alive's garbage octet lands on the FIN's sequence number: FIN segment lost, keep-alive interval elapses -> peer application gets a byte nobody wrote",
+ "C02/a": "Routes::lookup picks the longest prefix first and then checks expiry: an expired more-specific route hides a valid default route; TCP peer behind it stalls for ever",
+ "C02/b": "egress_permitted uses > instead of >= at the end of the neighbor-discovery silence while poll_at uses >=: after a lost ARP/NS a poll at exactly the deadline does nothing and poll_at keeps saying now",
+ "C03/a": "DHCP ingress filter relaxed to the client port only while the socket still asserts the server port: one UDP frame to port 68 from another source port -> assert panic in poll",
+ "C03/b": "icmpv4_reply no longer suppresses replies to source 0.0.0.0: echo request / UDP to a closed port / unknown protocol from 0.0.0.0 -> assert panic in dispatch_ip",
+ "C04/a": "data carried on the initial SYN is acknowledged and then skipped (remote_seq_no = seq + segment_len): the stream starts that many octets late",
+ "C04/b": "a rate-limited (suppressed) challenge ACK still records ACK/window as advertised: later data beyond every window the peer was shown is accepted",
+ "C05/a": "data cursor (remote_last_seq) advanced before the device accepts the segment: emit fails (device refuses / neighbor missing) -> the next write is sent after a gap of never-transmitted octets",
+ "C05/b": "window-scale shift 15 no longer clamped to 14: peer announcing WS=15 and more queued data than the real window",
+ "C06/a": "IPHC 32-bit multicast form chosen although octet 12 is non-zero (emit only; buffer_len still says 48-bit form): last two octets of the declared buffer never written, address changed",
+ "C06/b": "UDP zero-checksum-over-IPv6 rule loses its capability guard: datagram emitted with UDP checksumming off does not parse back under the same capabilities",
+ "C07/a": "6LoWPAN context lookup off by one (index > len): CID extension with stateful compression and context id == number of configured contexts -> index panic in Repr::parse",
+ "C07/b": "DHCP Router option accepts any length multiple of 4 incl. 0: option `03 00` -> slice panic in DhcpRepr::parse",
+ "C08/a": "Checksum::tx() answers for Both|Rx instead of Both|Tx: device announcing Checksum::Tx gets all checksums zero",
+ "C09/a": "expired reassembly slot freed by key = None instead of reset(): stale hole map joins the next fragmented datagram (same mechanism as a round-2 C03 seed, found independently)",
+ "C09/b": "dropped oversized ingress reply overwrites header template and MAC of the datagram still being fragmented: its remaining fragments leave addressed to the pinger",
+ "C10/a": "6LoWPAN FRAG_N size computed with the FRAG_1 header length: short source + short destination (9-octet MAC header) -> 126-octet frames",
+ "C11/a": "is_broadcast_v4 uses map_while: with an IPv6 (or /32) entry in front of the IPv4 CIDR the subnet broadcast is not recognised as source/destination class",
+ "C12/a": "IPv4 reassembly key takes the source address twice: same peer, same id, different destinations share a slot",
+ "C12/b": "fragmentation-buffer capacity check uses the frame length (incl. Ethernet header): datagrams within the last 14 octets of the buffer size are dropped on Ethernet",
+ "C13/a": "poll_at merges the 'fragments pending' deadline with Option::min: with no socket deadline it returns None while fragments are queued",
+ "C13/b": "neighbor_missing returns early when already waiting for the same neighbor: silence period never re-armed after the second unanswered request -> spin",
+ "C14/a": "PacketBuffer padding record keeps the recycled metadata slot's old header (left behind by dequeue_with): padding delivered as a ghost packet",
+ "C14/b": "enqueue_with_infallible resets the whole buffer when the payload ring is empty: queued zero-length packets vanish",
+ "C15/a": "add_then_remove_front returns Ok(0) without removing the front when offset != 0: range pending at offset 0 from a plain add",
+ "C15/b": "zero-length guard at the top of add_then_remove_front skips the remove_front half: size 0 with a range pending at offset 0",
+ "C16/a": "dropped oversized response to another neighbour overwrites the saved MAC of the datagram still being fragmented (same mechanism as a round-3 C12 seed, found independently)",
+ "C16/b": "neighbor entry still used at exactly 60 s of age (<= instead of <)",
+ "C17/a": "dispatch resets the socket unless source-address selection would pick its local address: interface with two addresses in one subnet, connection on the non-preferred one -> SYN-RECEIVED silently goes to CLOSED",
+ "C17/b": "SYN|ACK validated against SND.NXT instead of ISS+1: after an RTO whose retransmission could not leave (device refused), a SYN|ACK acknowledging ISS establishes the connection",
+ "C18/a": "dhcp poll_at clamps to expires_at only in the non-rebinding branch: all renewals and rebinds lost -> poll_at beyond the lease end",
+ "C18/b": "DHCP option that ends exactly at the end of the datagram is dropped (<= in the bounds check): ACK without END marker whose last option is the lease time -> default lease used",
+ "C19/a": "response with QDCOUNT = 0 accepted (guard != 1 became > 1)",
+ "C19/b": "first server's 10 s deadline computed at start_query from a stale clock: idle gap > 10 s before start_query -> query fails without sending",
+ "C20/a": "follow-on 6LoWPAN fragments take their link-layer source from the current hardware address: set_hardware_addr() between polls while fragments are pending",
+ "C20/b": "off-by-one in the 6LoWPAN fragmentation-buffer fit check (<=): datagram whose compressed form is exactly the buffer size is dropped",
+}
+
+STRENGTHENED4 = {
+ "C01/a": "C01 missed it (C02 caught it); tcp2 gained keep-alive configurations",
+ "C02/a": "C02 and C16 missed it; see DESIGN.md (overlapping routes with different expiries in C16)",
+ "C04/a": "C04 missed it; `data-on-syn` configuration",
+ "C05/a": "C05 missed it; sender harness gained writes / ticks during which the device refuses frames",
+ "C05/b": "C05 missed it; window scale 14/15 configurations; congestion control made explicit (fresh sockets default to CUBIC, which had hidden the window edge)",
+ "C06/b": "C06 missed it; see DESIGN.md (round trips under every checksum-capability value)",
+ "C08/a": "C10 missed it (C08 caught it): the egress monitor asked smoltcp's own Checksum::tx(); now an explicit match on the capability value",
+ "C10/a": "C10 missed it (C20 caught it); see DESIGN.md (short hardware addresses, 125-octet device MTU)",
+ "C11/a": "C11 missed it; see DESIGN.md (address-table layouts)",
+ "C14/a": "C14 missed it (C09 caught it): the PacketBuffer fingerprint merged states that differ in the header residue of free metadata slots; residue added to the fingerprint",
+ "C17/a": "C17 missed it; `reduced-second-address` configuration",
+ "C17/b": "C17 missed it; time advance with a refusing device (`ToPollAtBlocked`) added to the alphabet",
+ "C18/b": "C18 missed it; see DESIGN.md (messages cut right after the last option)",
+ "C19/a": "C19 missed it; see DESIGN.md (header count deviations)",
+ "C19/b": "C19 missed it; see DESIGN.md (idle gap before start_query)",
+ "C20/a": "C20 missed it; see DESIGN.md (hardware address change while fragments are pending)",
+ "C20/b": "C20 missed it; see DESIGN.md (length sweep up to the fragmentation buffer size)",
+}
+
 def next_letter(prop, used):
     for c in "abcdefghijklmnopqrstuvwxyz":
         if f"{prop}-{c}" not in used:
@@ -146,6 +205,8 @@ def main():
     rnd = int(sys.argv[1]) if len(sys.argv) > 1 else 2
     if rnd == 3:
         NEEDS, STRENGTHENED = NEEDS3, STRENGTHENED3
+    if rnd == 4:
+        NEEDS, STRENGTHENED = NEEDS4, STRENGTHENED4
     used = {os.path.basename(d) for d in glob.glob('/verif/seeded/*')}
     # seeds already stored by this script (origin_path recorded) are updated in place
     have = {}
@@ -156,7 +217,7 @@ def main():
     for key in sorted(NEEDS):
         prop, s = key.split('/')
         src = f"/tmp/seed/r{rnd}-out-{prop}/{s}"
-        outs = [f"/tmp/matrix/{prop}-{s}.out"] if rnd == 2 else [f"/tmp/matrix/r3-{prop}-{s}.out", f"/tmp/matrix/r3b-{prop}-{s}.out", f"/tmp/matrix/r3c-{prop}-{s}.out"]
+        outs = [f"/tmp/matrix/{prop}-{s}.out"] if rnd == 2 else [f"/tmp/matrix/r{rnd}-{prop}-{s}.out", f"/tmp/matrix/r{rnd}b-{prop}-{s}.out", f"/tmp/matrix/r{rnd}c-{prop}-{s}.out"]
         outs = [o for o in outs if os.path.exists(o)]
         if not (os.path.exists(src + "/patch.diff") and outs):
             print("skip", key, "(no patch or no matrix result)")
@@ -184,8 +245,8 @@ def main():
                     # harness failed on the broken tree (machinery errors) - still a detection
                     det.append(cid)
                     sigs.append(f"{cid}: " + ", ".join(sg.split()[:6]) + (" ..." if len(sg.split()) > 6 else ""))
-                elif rc != 0:
-                    bad = True
+                elif rc != 0 and cid == prop:
+                    bad = True  # the property's own check must give a verdict
 
             elif "does not apply" in l or "build failed" in l:
                 bad = True
